@@ -1029,6 +1029,13 @@ func init() {
 	ifaceIntrinsics["io.Writer.Write"] = func(ex *Exec, fr *Frame, st *State, reach string, recv Val, args []Val, sig *types.Signature, pos token.Pos) Val {
 		return ex.envCall(fr, st, reach, "io.Writer.Write", sig, args, pos)
 	}
+	reg("unicode/utf8.RuneCountInString", func(ex *Exec, fr *Frame, st *State, reach string, a []Val, sig *types.Signature, pos token.Pos) Val {
+		// between ceil(len/4) and len runes; exactly len for the empty string
+		s := a[0].term()
+		n := ex.sc.fresh("runes", sInt)
+		ex.sc.assert(mkAnd(mkCmp("<=", "0", n), mkCmp("<=", n, slen(s)), mkCmp("<=", slen(s), mkMul("4", n))))
+		return scalar(tInt, n)
+	})
 	reg("(*bytes.Buffer).WriteString", nothing)
 	reg("(*bytes.Buffer).String", nothing)
 }
